@@ -45,19 +45,20 @@ Splice(lin, ret, ds, B, pos) ==
   ELSE LET cut == B - Head(ds).remain IN
        Take(Drop(lin, pos), cut - pos) \o Head(ds).segs \o Splice(lin, ret, Tail(ds), B, cut)
 
-RECURSIVE DirectsFit(_, _, _)
-DirectsFit(ds, B, pos) ==
+RECURSIVE DirectsFit(_, _, _, _)
+DirectsFit(ds, B, pos, ret) ==
   IF ds = <<>> THEN TRUE
   ELSE LET cut == B - Head(ds).remain IN
        /\ pos <= cut                                   \* positions move forward through the linear stream
+       /\ cut <= ret                                   \* ... and lie within the linear bytes the call reports as written
        /\ Head(ds).remain >= SegsLen(Head(ds).segs)    \* the reserved tail can hold the piece
-       /\ DirectsFit(Tail(ds), B, cut)
+       /\ DirectsFit(Tail(ds), B, cut, ret)
 
 NocopyOK(ev) ==
   LET e == ExpEnc(ev) IN
   /\ ev.blen = SegsLen(e)                               \* advertised no-copy length = copying length
   /\ ev.copyret = SegsLen(e)
-  /\ DirectsFit(ev.directs, ev.B, 0)
+  /\ DirectsFit(ev.directs, ev.B, 0, ev.ret)
   /\ LET sp == Norm(Splice(ev.linear, ev.ret, ev.directs, ev.B, 0))
          sI == MkIn(sp)
      IN /\ sI.len = SegsLen(e)
